@@ -60,6 +60,8 @@ func runC05(c *Check, a *Analysis) {
 	ruleLockBalance(c, a, "R-LOCK-BALANCE", "ServerContext.recving")
 	rulePipeliningQueues(c, a, "R-PIPELINING-QUEUES")
 	ruleSchedNil(c, a, "R-SCHED-NIL")
+	ruleExecQueueAfterWait(c, a, "R-EXEC-QUEUE-AFTER-WAIT")
+	ruleInlineReplies(c, a, "R-INLINE-REPLIES")
 	ls := a.Locks()
 	sc := siteCounter{}
 
